@@ -6006,7 +6006,14 @@ int32 psX509AuthenticateCert(psPool_t *pool, psX509Cert_t *subjectCert,
                 Invalid CA to load: l or i1
              */
             if (sc->signatureLen == ic->signatureLen
-                && memcmpct(sc->signature, ic->signature, sc->signatureLen) == 0)
+                && memcmpct(sc->signature, ic->signature, sc->signatureLen) == 0
+                /* The signature alone does not identify a certificate: it
+                   is only a copy of the trusted one if the signed content
+                   (digest of the TBSCertificate computed at parse time) is
+                   the same as well. */
+                && sc->sigHashLen > 0
+                && sc->sigHashLen == ic->sigHashLen
+                && memcmpct(sc->sigHash, ic->sigHash, sc->sigHashLen) == 0)
             {
                 /* Skip some of the signature and issuer checks */
                 goto L_INTERMEDIATE_ROOT;
